@@ -753,3 +753,99 @@ func TestJanitorLoop(t *testing.T) {
 
 	res.Extra["cleanup_steps_without_two_cycles"] = stuck
 }
+
+// TestStoreFree: operation sequences chosen by a Go random generator (not by TLC) for random eviction parameters -
+// CountSoftLimit 0..6, EvictFraction = n/1000 for arbitrary n, three strategies, EvictionNeeded on/off - executed on
+// virtual time; the observed trace of each run is validated by TLC (StoreTrace) with that run's constants and
+// FloatSlack = TRUE (the evicted amount may be off by one, ties are resolved by the code).  Pure code -> model direction.
+func TestStoreFree(t *testing.T) {
+	outp := os.Getenv("VERIF_TRACE_OUT")
+	if outp == "" || os.Getenv("VERIF_STOREFREE") == "" {
+		t.Skip("VERIF_STOREFREE not set")
+	}
+
+	seed := envInt("VERIF_SEED", 1)
+	n := int(envInt("VERIF_N", 16))
+	res := Result{Extra: map[string]interface{}{}}
+
+	defer func() { mustNoErr(writeJSON(os.Getenv("VERIF_OUT"), res), "write result") }()
+
+	f, err := os.Create(outp)
+	mustNoErr(err, "trace out")
+
+	defer f.Close()
+
+	enc := json.NewEncoder(f)
+	models := []string{"k1", "k2", "k3", "k4", "k5", "k6"}
+
+	for ri := 0; ri < n; ri++ {
+		rng := rand.New(rand.NewSource(seed*8191 + int64(ri))) //nolint:gosec
+		cfg := StoreCfg{Keys: models, CfgTTL: 2, DEA: 50, CountLimit: rng.Intn(7), FracDen: 1000,
+			FracNum:  []int{1 + rng.Intn(1000), 100, 250, 333, 500, 510, 667, 1000}[rng.Intn(8)],
+			Strategy: []string{"expired", "lru", "lfu"}[rng.Intn(3)], EvictNeeded: rng.Intn(2) == 0, Jitter: -1,
+			Unlimited: rng.Intn(4) == 0}
+		kind := Kinds[ri%3]
+
+		km, err := NewKeyMap(seed+int64(ri), false, models)
+		mustNoErr(err, "keymap")
+
+		r := &storeRun{cfg: cfg, km: km, u: cfg.unit(), stat: NewStatRec()}
+		r.be = NewBackend(kind, cfg.cacheConfig("store", r.stat, &r.needed))
+
+		var steps []stepJ
+
+		now := 0
+
+		for i := 0; i < 45; i++ {
+			st := stepJ{}
+
+			switch x := rng.Intn(20); {
+			case x < 8:
+				st.Op = opJ{Name: "Write", K: models[rng.Intn(6)], V: []string{"v1", "v2"}[rng.Intn(2)], TTL: []int{0, 0, 1, 2, -1, -2}[rng.Intn(6)]}
+			case x < 13:
+				st.Op = opJ{Name: "Read", K: models[rng.Intn(6)]}
+			case x < 14:
+				st.Op = opJ{Name: "Delete", K: models[rng.Intn(6)]}
+			case x < 15:
+				st.Op = opJ{Name: "ExpireAll"}
+			case x < 17 && now < 20:
+				st.Op = opJ{Name: "Tick"}
+				now++
+			default:
+				st.Op = opJ{Name: "Cleanup", Skip: cfg.EvictNeeded && rng.Intn(2) == 0}
+			}
+
+			st.Now = now
+			steps = append(steps, st)
+		}
+
+		func() {
+			defer func() {
+				if p := recover(); p != nil {
+					r.obs = append(r.obs, stepJ{Op: opJ{Name: "Panic"}, Reply: repJ{R: fmt.Sprint("error:panic:", p)}, St: []entJ{}})
+				}
+			}()
+
+			synctest.Test(t, func(t *testing.T) {
+				r.t0 = time.Now()
+
+				for i, st := range steps {
+					time.Sleep(Eps)
+
+					got := r.exec(st)
+
+					ents, prob := r.project(i)
+					if prob != "" {
+						got = repJ{R: "error:" + prob}
+					}
+
+					r.obs = append(r.obs, stepJ{Op: st.Op, Reply: got, Now: st.Now, St: ents, Met: r.metrics()})
+				}
+			})
+		}()
+
+		_ = enc.Encode(map[string]interface{}{"run": ri, "kind": kind, "cfg": cfg, "steps": r.obs})
+		res.Evaluations++
+		res.Steps += len(r.obs)
+	}
+}
